@@ -17,6 +17,12 @@ Inductive sobj :=
 | SStm (id : N) (deps : list N)   (* the stream object number id, whose dictionary has these indirect entries *)
 | SVal.                     (* anything else (null, name, number, dict) *)
 
+(* what is stored for a compressed object inside the object stream's data *)
+Inductive mval :=
+| MObj (o : sobj)               (* an ordinary object *)
+| MStreamShaped (len : N).      (* `<< /Length len 0 R >> stream ...`: a dictionary followed by
+                                   the keyword stream (not allowed inside an object stream) *)
+
 Inductive entry :=
 | EFree                     (* free or missing: reads as null *)
 | EDirect (o : sobj)        (* type 1: the object at a file offset *)
@@ -47,10 +53,29 @@ Fixpoint deps_with (g : N -> bool -> res sobj) (flag : bool) (result : sobj) (ds
     end
   end.
 
+(* contents.s.ReadObject() for the member.  A scanner inside an object stream
+   has no access to the file: since F40 ReadStreamData refuses a stream-shaped
+   member before looking at its /Length; before, it first resolved the
+   indirect /Length through lengthGetter.Get (canObjStm = true), ignored a
+   malformed result and only then refused. *)
+Definition read_member (g : N -> bool -> res sobj) (f40 : bool) (m : mval) : res sobj :=
+  match m with
+  | MObj o => Ok o
+  | MStreamShaped l =>
+    if f40 then Err Malformed
+    else
+      match resolve_with g depth_cap l true with
+      | Err Malformed => Err Malformed
+      | Err c => Err c
+      | Ok _ => Err Malformed
+      end
+  end.
+
 Section Get.
   Variable xref : N -> entry.
-  Variable member : N -> sobj.     (* the value stored for a compressed object *)
-  Variable depflag : bool.
+  Variable member : N -> mval.     (* the value stored for a compressed object *)
+  Variable depflag : bool.         (* canObjStm used for the dictionary entries: false in the code *)
+  Variable f40 : bool.             (* true: the code as it is *)
 
   (* Reader.get(ref, canObjStm); the fuel bounds the NESTING of get calls *)
   Fixpoint get (fuel : nat) (ref : N) (can : bool) {struct fuel} : res sobj :=
@@ -65,13 +90,13 @@ Section Get.
           (* getFromObjStm: container, err := resolve(r, sRef, false) *)
           match resolve_with (get f) depth_cap s false with
           | Ok (SStm id deps) =>
-            (* the index of the stream that was found must list the object *)
-            if N.eqb id s then deps_with (get f) depflag (member ref) deps
-            else
-              match deps_with (get f) depflag (member ref) deps with
-              | Err c => Err c
-              | Ok _ => Err Malformed       (* "object not found" *)
-              end
+            match deps_with (get f) depflag SVal deps with
+            | Err c => Err c
+            | Ok _ =>
+              (* the index of the stream that was found must list the object *)
+              if N.eqb id s then read_member (get f) f40 (member ref)
+              else Err Malformed            (* "object not found" *)
+            end
           | Ok _ => Err Malformed           (* not a stream *)
           | Err c => Err c
           end
@@ -87,5 +112,5 @@ Fixpoint alookup {X} (d : X) (g : list (N * X)) (r : N) : X :=
   | (k, v) :: g' => if N.eqb k r then v else alookup d g' r
   end.
 
-Definition get_in (xr : list (N * entry)) (mem : list (N * sobj)) (ref : N) : res sobj :=
-  get (alookup EFree xr) (alookup SVal mem) false 2 ref true.
+Definition get_in (xr : list (N * entry)) (mem : list (N * mval)) (ref : N) : res sobj :=
+  get (alookup EFree xr) (alookup (MObj SVal) mem) false true 2 ref true.
